@@ -233,8 +233,12 @@ class SedRead(Contract):
             if len(grid) > 2:
                 wav, nu, ap = grid[2:5]         # the files of the package are tabulated on one common grid
         else:
-            A, W = c.int(tag + '_n_ap'), c.int(tag + '_n_wav')
-            c.assume([A >= 1, W >= 2])
+            A = getattr(c.interp, 'shared_sed_apertures', None)
+            if A is None:
+                A = c.int(tag + '_n_ap')
+                c.assume(A >= 1)
+            W = c.int(tag + '_n_wav')
+            c.assume(W >= 2)
         f = dict(wav=wav if wav is not None else c.array(tag + '_wav', (W,)), nu=nu if nu is not None else c.array(tag + '_nu', (W,)),
                  ap=ap if ap is not None else c.array(tag + '_ap', (A,)),
                  flux=c.array(tag + '_flux', (A, W)), err=c.array(tag + '_err', (A, W)), ua=FLUX_UNITS['mJy'], dist=c.real(tag + '_dist_cm'),
